@@ -257,6 +257,8 @@ def script(args: typing.List[str], witness: bool = False) -> bytes:
                 else:
                     raise ValueError("too much data to push!")
                 op_push += data_len.to_bytes(no_bytes, "little")
+            elif witness:
+                op_push = bits.compact_size_uint(data_len)
             else:
                 op_push = len(data).to_bytes(1, "little")
             scriptbytes += op_push
@@ -283,14 +285,18 @@ def decode_script(
     if witness:
         witness_stack_len, scriptbytes = bits.parse_compact_size_uint(scriptbytes)
         parsed_bytes = bits.compact_size_uint(witness_stack_len)
+        if not witness_stack_len:
+            # empty witness stack
+            if parse:
+                return parsed_bytes, scriptbytes
+            return decoded, scriptbytes
 
     while scriptbytes:
         if witness:
-            push = scriptbytes[0]
-            data = scriptbytes[1 : 1 + push]
-            parsed_bytes += scriptbytes[: 1 + push]
+            push, data = bits.parse_compact_size_uint(scriptbytes)
+            parsed_bytes += scriptbytes[: len(scriptbytes) - len(data) + push]
+            data, scriptbytes = data[:push], data[push:]
             decoded.append(data.hex())
-            scriptbytes = scriptbytes[1 + push :]
             witness_stack_len -= 1
             if not witness_stack_len:
                 if parse:
